@@ -21,8 +21,8 @@ CHECKS = {
  "C16": ("Twin validation: every history is re-run with pickle round trips / reclaim_node_data inserted at every position and TLC requires identical projections and outputs after every corresponding call; inserted-run traces are also validated event by event (pickle and reclaim are stuttering steps of the model).", "4/C16"),
  "C17": ("Twin validation under variable permutation + negation + renaming + reformulated update functions + bnet/aeon/sbml: isomorphic full diagrams, same minimal trap spaces and attractor sets under the transformation (TLC), and every presentation run validated against the transformed truth tables.", "4/C17"),
  "C18": ("Disjoint unions and input-fixed networks: TLC validates library results on composed truth tables, and the 'below' twin relation checks the input-conditioned sub-diagram; published models whose percolated core has <= 10 variables are run through build() in full and judged by TLC on the core network (root percolation certified per update function); models with larger cores are listed as not covered.", "4/C18"),
- "C19": ("Twin validation with the identity relation on everything logged: the same history in fresh interpreters under different PYTHONHASHSEED values, twice in one process and after unrelated library activity.", "4/C19"),
- "C20": ("DepthExact / IndexExact / contiguous ids checked by TLC on every logged state of TLC-generated and random histories (incl. skip operations and pickling), ids / depths / index predicted by the model are compared after every call as mechanism diagnostics; find_node, summary, is_subgraph and is_isomorphic answers are recomputed by TLC (QUERY clause); _ensure_edge is validated at action level from arbitrary DAG states (DepthTrace).", "4/C20"),
+ "C19": ("Twin validation with the identity relation on everything logged: the same history in fresh interpreters under different PYTHONHASHSEED values, twice in one process and after unrelated library activity, also under variable names whose alphabetical order interleaves the modules.", "4/C19"),
+ "C20": ("DepthExact / IndexExact / contiguous ids checked by TLC on every logged state of TLC-generated and random histories (incl. skip operations and pickling), ids / depths / index predicted by the model are compared after every call as mechanism diagnostics; find_node, summary, is_subgraph and is_isomorphic answers are recomputed by TLC (QUERY clause); _ensure_edge is validated at action level from arbitrary DAG states (DepthTrace); after build() on a fresh diagram the summary must list every attractor exactly once with the right label (SummaryOnce).", "4/C20"),
 }
 NOT_YET = {}
 ENGINE = {"C16": "tla-twin", "C17": "tla-twin", "C18": "tla-twin", "C19": "tla-twin", "C06": "tla-control", "C07": "tla-control", "C09": "tla-pure", "C10": "tla-pure", "C11": "tla-pure"}
